@@ -64,6 +64,9 @@ def code_for_number_token(name, value, location):
     try:
         # Note: base 0 automatically handles prefixes like 0x.
         result = int(value, 0)
+        # Numbers with a prefix like 0x can have any length, but converting them to text later on, for example in
+        # order to show them in an error message, is subject to the same limit as reading a decimal number.
+        str(result)
     except ValueError:
         raise errors.InterfaceError(
             "numeric value for %s must be an integer number but is: %s" % (name, _compat.text_repr(value)), location
